@@ -189,3 +189,32 @@
 ;@ needs wsum
 (assert (forall ((B (Array Int Int)) (o Int) (n Int) (lw Int) (w Int))
   (! (=> (>= n 0) (= (wsum B o (+ n 1) lw w) (+ (wsum B o n lw w) (- (- w 1) (bwdig B o n lw))))) :pattern ((wsum B o (+ n 1) lw w)))))
+; ---- L-tree (RFC 8391 Algorithm 8) over n WOTS+ public-key elements PK[o+32j ..): llen(n,t) nodes at level t,
+; lnode(.., t, i) the i-th of them; an odd last node is carried up unchanged ----
+(declare-fun llen (Int Int) Int)
+;@ needs llen
+(assert (forall ((n Int)) (! (= (llen n 0) n) :pattern ((llen n 0)))))
+;@ needs llen
+(assert (forall ((n Int) (t Int)) (! (=> (>= t 0) (= (llen n (+ t 1)) (div (+ (llen n t) 1) 2))) :pattern ((llen n (+ t 1))))))
+(declare-fun lnode (Int (Array Int Int) (Array Int Int) (Array Int Int) Int Int Int Int) (Array Int Int))
+;@ needs lnode
+(assert (forall ((hf Int) (PS (Array Int Int)) (A (Array Int Int)) (PK (Array Int Int)) (o Int) (n Int) (i Int))
+  (! (= (lnode hf PS A PK o n 0 i) (sub PK (+ o (* 32 i)) 32)) :pattern ((lnode hf PS A PK o n 0 i)))))
+;@ needs lnode
+(assert (forall ((hf Int) (PS (Array Int Int)) (A (Array Int Int)) (PK (Array Int Int)) (o Int) (n Int) (t Int) (i Int))
+  (! (=> (>= t 0)
+         (= (lnode hf PS A PK o n (+ t 1) i)
+            (ite (< i (div (llen n t) 2))
+                 (randHash hf PS (store (store A 5 t) 6 i) (cat (lnode hf PS A PK o n t (* 2 i)) 32 (lnode hf PS A PK o n t (+ (* 2 i) 1)) 32))
+                 (lnode hf PS A PK o n t (- (llen n t) 1)))))
+     :pattern ((lnode hf PS A PK o n (+ t 1) i)))))
+(declare-fun lnodeS (Int (Array Int Int) (Array Int Int) (Array Int Int) Int Int Int Int) (Array Int Int))
+;@ needs lnodeS
+(assert (forall ((hf Int) (PS (Array Int Int)) (A (Array Int Int)) (PK (Array Int Int)) (o Int) (n Int) (t Int) (i Int))
+  (! (and (= (lnodeS hf PS A PK o n t i) (lnode hf PS A PK o n t i))
+          (=> (> t 0)
+              (= (lnode hf PS A PK o n t i)
+                 (ite (< i (div (llen n (- t 1)) 2))
+                      (randHash hf PS (store (store A 5 (- t 1)) 6 i) (cat (lnode hf PS A PK o n (- t 1) (* 2 i)) 32 (lnode hf PS A PK o n (- t 1) (+ (* 2 i) 1)) 32))
+                      (lnode hf PS A PK o n (- t 1) (- (llen n (- t 1)) 1))))))
+     :pattern ((lnodeS hf PS A PK o n t i)))))
